@@ -258,10 +258,10 @@ def check_diagnostic(an, d):
 def allowed_attr_for_site(site):
     """Map a write site (function qualname) to the cache / diagnostic it belongs to, if any."""
     for c in CACHES:
-        if site.func == "%s.%s.%s" % (c["module"], c["cls"], c["func"]):
+        if site.func == "%s.%s.%s" % (c["module"], c["cls"], c["func"]) and getattr(site, "attr", None) == c["attr"]:
             return ("cache", c)
     for d in DIAGNOSTICS:
-        if site.func == "%s.%s.%s" % (d["module"], d["cls"], d["func"]):
+        if site.func == "%s.%s.%s" % (d["module"], d["cls"], d["func"]) and getattr(site, "attr", None) == d["attr"]:
             return ("diagnostic", d)
     return None
 
